@@ -1,2 +1,137 @@
-import Pakhi.Model.Interp
+/-
+  C15 — module loading terminates: cyclic imports are rejected, acyclic ones load.
+
+  Proved here about the cycle test of the loader (fix F10): it raises the cyclic-dependency error
+  ONLY when the recorded import edges really contain a cycle through the module being loaded
+  (`cycle_error_is_sound`: the defect was a false alarm on diamonds and repeated imports), a self
+  import and a two-module cycle are always detected, recording edges is idempotent (a module
+  imported twice records nothing new), a missing file and a path without the `.pakhi` extension are
+  error values, and the search itself always terminates (it is structurally recursive on its fuel).
+  That *every* cycle reachable from the root is detected and that every acyclic graph loads, each
+  import running its module once in source order, is decided by complete enumeration of all 2^16
+  import graphs over four files in the thorough tier (all 512 over three files in the quick tier).
+-/
 import Pakhi.Model.Parser
+
+namespace Pakhi
+namespace C15
+
+/-- `a` imports … imports `b` over the recorded edges (zero or more steps) -/
+inductive Path (rel : List (Str × List Str)) : Str → Str → Prop where
+  | refl (a) : Path rel a a
+  | step {a c b} : c ∈ (relGet rel a).getD [] → Path rel c b → Path rel a b
+
+/-- the depth-first search answers `true` only if the target is reachable from the stack -/
+theorem reachLoop_sound (rel : List (Str × List Str)) (target : Str) :
+    ∀ (f : Nat) (stack visited : List Str), reachLoop rel target f stack visited = true →
+      ∃ s, s ∈ stack ∧ Path rel s target
+  | 0, _, _, h => by simp [reachLoop] at h
+  | _+1, [], _, h => by simp [reachLoop] at h
+  | f+1, m :: stack, visited, h => by
+      simp only [reachLoop] at h
+      split at h
+      · rename_i hm; have : m = target := by simpa using hm
+        exact ⟨m, by simp, this ▸ Path.refl m⟩
+      · split at h
+        · obtain ⟨s, hs, hp⟩ := reachLoop_sound rel target f stack visited h
+          exact ⟨s, by simp [hs], hp⟩
+        · obtain ⟨s, hs, hp⟩ := reachLoop_sound rel target f _ _ h
+          rcases List.mem_append.mp hs with h1 | h1
+          · exact ⟨m, by simp, Path.step h1 hp⟩
+          · exact ⟨s, by simp [h1], hp⟩
+
+/-- the "Cyclic module dependency" error is raised only for a real cycle through the module:
+    one of its recorded children leads back to it -/
+theorem cycle_error_is_sound (rel : List (Str × List Str)) (m : Str) (h : importsBack rel m = true) :
+    ∃ c, c ∈ (relGet rel m).getD [] ∧ Path rel c m := by
+  unfold importsBack at h
+  simp only [List.any_eq_true] at h
+  obtain ⟨c, hc, hr⟩ := h
+  obtain ⟨s, hs, hp⟩ := reachLoop_sound rel m _ [c] [] hr
+  simp at hs; subst hs
+  exact ⟨s, hc, hp⟩
+
+/-- so an acyclic recorded graph never produces the error -/
+theorem acyclic_never_flagged (rel : List (Str × List Str)) (m : Str)
+    (hacyc : ∀ c, c ∈ (relGet rel m).getD [] → ¬ Path rel c m) : importsBack rel m = false := by
+  cases h : importsBack rel m with
+  | false => rfl
+  | true => obtain ⟨c, hc, hp⟩ := cycle_error_is_sound rel m h; exact absurd hp (hacyc c hc)
+
+/-- a file importing itself is detected -/
+theorem self_import_detected (rel : List (Str × List Str)) (m : Str) (h : m ∈ (relGet rel m).getD []) :
+    importsBack rel m = true := by
+  unfold importsBack
+  simp only [List.any_eq_true]
+  refine ⟨m, h, ?_⟩
+  have : (relSize rel + 1) * (relSize rel + 1) = ((relSize rel + 1) * (relSize rel + 1) - 1) + 1 := by
+    have : 1 ≤ (relSize rel + 1) * (relSize rel + 1) := Nat.mul_pos (by omega) (by omega)
+    omega
+  rw [this]; simp [reachLoop]
+
+/-- recording the same children again changes nothing: importing a module twice adds no edge -/
+theorem addNew_idempotent (old new : List Str) : addNew (addNew old new) new = addNew old new := by
+  have key : ∀ (acc : List Str) (ns : List Str), (∀ c ∈ ns, c ∈ acc) → addNew acc ns = acc := by
+    intro acc ns
+    induction ns generalizing acc with
+    | nil => intro _; rfl
+    | cons c r ih =>
+      intro hall
+      have hc : acc.contains c = true := by simpa using hall c (by simp)
+      simp only [addNew, List.foldl_cons, hc, if_true]
+      exact ih acc (fun x hx => hall x (by simp [hx]))
+  have mem : ∀ (ns acc : List Str) (c : Str), (c ∈ ns ∨ c ∈ acc) → c ∈ addNew acc ns := by
+    intro ns
+    induction ns with
+    | nil => intro acc c h; simpa [addNew] using h
+    | cons d r ih =>
+      intro acc c h
+      simp only [addNew, List.foldl_cons]
+      apply ih
+      by_cases hd : acc.contains d = true
+      · simp only [hd, if_true]
+        rcases h with h | h
+        · rcases List.mem_cons.mp h with rfl | h
+          · right; simpa using hd
+          · left; exact h
+        · right; exact h
+      · simp only [hd, Bool.false_eq_true, if_false]
+        rcases h with h | h
+        · rcases List.mem_cons.mp h with rfl | h
+          · right; simp
+          · left; exact h
+        · right; simp [h]
+  exact key _ _ (fun c hc => mem new old c (Or.inl hc))
+
+/-- a two-module cycle a → b → a is detected when the second edge is recorded -/
+theorem two_cycle_detected (a b : Str) (rest : List Str) (hab : a ≠ b) :
+    importsBack [(a, [b]), (b, a :: rest)] b = true := by
+  have h1 : (a == b) = false := by simpa using hab
+  have h2 : (b == a) = false := by simpa using (Ne.symm hab)
+  unfold importsBack
+  obtain ⟨n, hn⟩ : ∃ n, (relSize [(a, [b]), (b, a :: rest)] + 1) * (relSize [(a, [b]), (b, a :: rest)] + 1) = n + 2 := by
+    have : 2 ≤ relSize [(a, [b]), (b, a :: rest)] + 1 := by simp [relSize]
+    exact ⟨_, (Nat.sub_add_cancel (Nat.le_trans (by omega) (Nat.mul_le_mul this this))).symm⟩
+  rw [hn]
+  simp [relGet, List.find?, h1, h2, reachLoop]
+
+/-- a missing module file is an error value -/
+theorem missing_file_is_error (ctx : PCtx) (path name root : Str) (hroot : pathParent ctx.mainPath = some root)
+    (hmiss : ctx.readFile (pathJoin root path) = none) :
+    ∃ e, moduleTokens ctx path name = .err e ∧ e.cls = .runtime := by
+  simp [moduleTokens, hroot, hmiss, mkErr]
+
+/-- a module path without the `.pakhi` extension is an error value, before any file is read -/
+theorem no_extension_is_error (ctx : PCtx) (s : PS) (name path : Str) (off : Nat)
+    (h1 : importPathTail (s.rest.drop 2) = .ok (path, off)) (h2 : endsWith path W.extPakhi = false) :
+    ∃ e, namedModuleImport ctx s name = .err e := by
+  simp only [namedModuleImport, h1, h2]
+  simp only [Bool.not_false, if_true]
+  unfold PS.syntaxErr
+  split <;> simp [mkErr] <;> first | exact ⟨_, rfl⟩ | skip
+  all_goals (rename_i h; unfold PS.metaCur at h; split at h <;> simp [unexpected] at h)
+
+example : importsBack [("m".toList, ["b".toList, "c".toList]), ("b".toList, ["d".toList]), ("c".toList, ["d".toList]), ("d".toList, ["e".toList])] "d".toList = false := by decide
+
+end C15
+end Pakhi
